@@ -200,8 +200,11 @@ func init() {
 							if !ok || fi.selField(sel) == nil || fi.selField(sel).Name() != "Type" {
 								return false
 							}
-							ie, ok := ast.Unparen(sel.X).(*ast.IndexExpr)
-							return ok && fi.sameExpr(ie.X, loop.X) && fi.varOf(ie.Index) == fi.varOf(ix.Index)
+							if ie, ok := ast.Unparen(sel.X).(*ast.IndexExpr); ok {
+								return fi.sameExpr(ie.X, loop.X) && fi.varOf(ie.Index) == fi.varOf(ix.Index)
+							}
+							// the range's own value variable stands for <loop.X>[i]
+							return loop.Value != nil && fi.varOf(sel.X) != nil && fi.varOf(sel.X) == fi.varOf(loop.Value)
 						}
 						if sl, ok := tv.Type().(*types.Slice); ok {
 							if b, ok := sl.Elem().(*types.Basic); ok && b.Kind() == types.Int {
@@ -474,21 +477,41 @@ func init() {
 				}
 				found := 0
 				fi.inspect(fi.Decl.Body, func(nd ast.Node) bool {
-					sw, ok := nd.(*ast.SwitchStmt)
-					if !ok || sw.Tag != nil {
+					// arms of a dispatch: the case conditions of a tagless switch, or the conditions of an
+					// if / else-if chain (taken at its head)
+					var arms []ast.Expr
+					var at ast.Node
+					switch x := nd.(type) {
+					case *ast.SwitchStmt:
+						if x.Tag != nil {
+							return true
+						}
+						at = x
+						for _, s := range x.Body.List {
+							arms = append(arms, s.(*ast.CaseClause).List...)
+						}
+					case *ast.IfStmt:
+						if p, ok := fi.parent[x].(*ast.IfStmt); ok && p.Else == ast.Stmt(x) {
+							return true // not the head of the chain
+						}
+						at = x
+						for is := x; is != nil; {
+							arms = append(arms, is.Cond)
+							next, _ := is.Else.(*ast.IfStmt)
+							is = next
+						}
+						if len(arms) < 2 {
+							return true
+						}
+					default:
 						return true
 					}
+					sw := at
 					seen := map[string]bool{}
 					hasDefaultPanic := false
-					for _, s := range sw.Body.List {
-						cc := s.(*ast.CaseClause)
-						if cc.List == nil {
-							hasDefaultPanic = len(cc.Body) > 0 && stmtTerminates(cc.Body[len(cc.Body)-1])
-						}
-						for _, e := range cc.List {
-							for _, cl := range callsIn(e) {
-								seen[fi.calleeName(cl)] = true
-							}
+					for _, e := range arms {
+						for _, cl := range callsIn(e) {
+							seen[fi.calleeName(cl)] = true
 						}
 					}
 					any := false
